@@ -25,19 +25,19 @@ def apply(model, rel: str, transform: Callable[[ast.Module], None]) -> str:
 
 
 def find_def(tree: ast.AST, qual: str) -> ast.AST:
+    """definition by qualified name; of several same-named definitions in one body the LAST wins (as at run time,
+    e.g. typing.overload stubs followed by the implementation)."""
     cur = tree
     for part in qual.split("."):
         nxt = None
-        for n in ast.walk(cur) if not isinstance(cur, (ast.Module, ast.ClassDef)) else cur.body:
-            if isinstance(n, (ast.FunctionDef, ast.ClassDef, ast.AsyncFunctionDef)) and n.name == part and n is not cur:
-                nxt = n
-                break
-        if nxt is None:
-            # nested inside function bodies / compound statements
-            for n in ast.walk(cur):
-                if isinstance(n, (ast.FunctionDef, ast.ClassDef)) and n.name == part and n is not cur:
+        if isinstance(cur, (ast.Module, ast.ClassDef)):
+            for n in cur.body:
+                if isinstance(n, (ast.FunctionDef, ast.ClassDef, ast.AsyncFunctionDef)) and n.name == part:
                     nxt = n
-                    break
+        if nxt is None:
+            for n in ast.walk(cur):
+                if isinstance(n, (ast.FunctionDef, ast.ClassDef, ast.AsyncFunctionDef)) and n.name == part and n is not cur:
+                    nxt = n
         if nxt is None:
             raise TargetMissing(f"definition {qual}")
         cur = nxt
